@@ -1010,7 +1010,13 @@ def oracle_C11(t):
                         continue  # LogIn drops the error of its own preliminary LogOut; the later saves supersede it
                     if x["op"] == "delete":
                         continue  # the delayed clean-up of a replaced ID has nowhere to report to; Destroy and Start report theirs
-                    out.append(F(i, "every call of the request returned success although the store failed (%s %s)" % (x["op"], kt(x["key"]))))
+                    sig = None
+                    if x["op"] == "save" and x.get("origin") == "other" and any(
+                            s_["op"] == "getdel" and r_.get("has") for s_, r_ in zip(st.get("script") or [], o.get("script") or [])):
+                        # Set, Delete and LogOut report their failed save; the one direct
+                        # save whose failure cannot be reported is GetAndDelete's
+                        sig = "D6b"
+                    out.append(F(i, "every call of the request returned success although the store failed (%s %s)" % (x["op"], kt(x["key"])), sig))
                     break
             if o["res"] == "sess" and kt(o["start"]["key"]) in t.draws(i) and not (st.get("script")):
                 fk = kt(o["start"]["key"])
